@@ -109,18 +109,29 @@ static void mutate(Vec& v, M& m, int base)
     }
     else if (what == 1)
     {
-        const usize want_bytes = live_payload<LT>(m) + SMAX * 8 * LT::NVARY;
-        v.reserve(m.n + 1, want_bytes);
-        if (m.n + 1 > m.cap)
+        // the target of a copy/move reports a capacity and inherits the byte budget of its source (C02): an element that fits
+        // within those limits is appended without reserve, so an under-sized block shows as an out-of-bounds store; otherwise
+        // room is made with reserve first
+        const auto e = draw_elem<LT>(m);
+        if (has_room(m, e) && m.n < KMAX)
         {
-            m.cap = m.n + 1;
-            m.budget = want_bytes;
-            m.cap_exact = true;
-            const auto e = draw_elem<LT>(m);
-            if (has_room(m, e) && m.n < KMAX)
+            emplace_elem<LT>(v, e);
+            m.e[m.n++] = e;
+        }
+        else
+        {
+            const usize want_bytes = live_payload<LT>(m) + SMAX * 8 * LT::NVARY;
+            v.reserve(m.n + 1, want_bytes);
+            if (m.n + 1 > m.cap)
             {
-                emplace_elem<LT>(v, e);
-                m.e[m.n++] = e;
+                m.cap = m.n + 1;
+                m.budget = want_bytes;
+                m.cap_exact = true;
+                if (has_room(m, e) && m.n < KMAX)
+                {
+                    emplace_elem<LT>(v, e);
+                    m.e[m.n++] = e;
+                }
             }
         }
     }
@@ -170,8 +181,10 @@ extern "C" void h_entry()
         {
             const usize allocs0 = verif_alloc_count();
             const M ma0 = ma;
+            const auto* const a_data = a.data_begin();
             Vec c(std::move(a));
             verif_assert(verif_alloc_count() == allocs0, 890);  // C16: move construction exchanges ownership without allocating
+            verif_assert(c.data_begin() == a_data, 891);        // C16: ... and every stored object keeps its address
             M mc = ma0;
             inv<LT>(c, mc, 200);
             verif_assert(c.get_allocator().id == ID_A, 801);
@@ -179,7 +192,7 @@ extern "C" void h_entry()
             verif_assert(verif_live_objs() == tr_count<LT>(mc), 897);
             // the moved-from vector can be destroyed, cleared, assigned to and swapped
             usize what = verif_nondet_size();
-            verif_assume(what < 4);
+            verif_assume(what < 5);
             what = verif_fork(what);
             if (what == 1)
             {
@@ -193,6 +206,16 @@ extern "C" void h_entry()
                 m2.cap = a.capacity();
                 m2.cap_exact = false;
                 inv<LT>(a, m2, 300);
+            }
+            else if (what == 4)
+            {
+                // move assignment into the moved-from vector, from a vector of another allocator instance
+                M md{};
+                Vec d = build(md, 1, ID_B);
+                const M md0 = md;
+                a = std::move(d);
+                adopt(md, md0, a);
+                inv<LT>(a, md, 300);
             }
             else if (what == 3)
             {
@@ -225,6 +248,10 @@ extern "C" void h_entry()
             const usize b_mem = b.memory_consumption();
             const usize allocs0 = verif_alloc_count();
             const M ma0 = ma, mb0 = mb;
+            const auto* const a_data = a.data_begin();
+            const auto* const b_data = b.data_begin();
+            (void)a_data;
+            (void)b_data;
             if constexpr (OP == OP_COPY_ASSIGN)
             {
                 b = a;
@@ -255,6 +282,7 @@ extern "C" void h_entry()
                 if (ALWAYS_EQ || POCMA || ID_A == ID_B)
                 {
                     verif_assert(verif_alloc_count() == allocs0, 890);  // ownership transfer, nothing requested
+                    verif_assert(b.data_begin() == a_data, 891);
                     verif_assert(verif_live_objs() == tr_count<LT>(mb), 897);
                 }
                 // moved-from source: destroyed (scope exit), cleared, assigned to or swapped
@@ -289,6 +317,7 @@ extern "C" void h_entry()
                 {
                     swap(a, b);
                     verif_assert(verif_alloc_count() == allocs0, 890);  // C16
+                    verif_assert(a.data_begin() == b_data && b.data_begin() == a_data, 891);
                     inv<LT>(a, mb0, 300);
                     inv<LT>(b, ma0, 400);
                     verif_assert(a.get_allocator().id == (POCS ? ID_B : ID_A), 801);
